@@ -92,7 +92,7 @@ def _shapes(tier, prop=None):
           dict(spec="line4", modes=["max"], sample_only=True, sample_factor=12, sample_part=5)]
     if prop == "C10" and tier == "quick":
         return [q[0], q[4], q[8]]
-    if tier != "thorough":
+    if tier != "thorough" or prop == "C10":
         return q
     return q + [dict(spec="triangle", modes=["min"]), dict(spec="pair3", modes=["max"]), dict(spec="far", modes=["max"]),
                 dict(spec="chain3", modes=["min"], start_order="rev"), dict(spec="chain4", modes=["max"]),
